@@ -24,10 +24,12 @@ import (
 	"go/importer"
 	"go/parser"
 	"go/printer"
+	"go/scanner"
 	"go/token"
 	"go/types"
 	"os"
 	"path/filepath"
+	"regexp"
 	"sort"
 	"strings"
 )
@@ -745,54 +747,7 @@ func (p *pkgInfo) atomShape(recv, name string) ([]string, error) {
 	// names the function declares itself (receiver, parameters, results, := and var) are written as v0, v1, ... in
 	// the order of their declaration: renaming a local does not change the skeleton (field and package-level names
 	// are part of it)
-	locals := map[string]string{}
-	declare := func(id *ast.Ident) {
-		if id == nil || id.Name == "_" {
-			return
-		}
-		if _, ok := locals[id.Name]; !ok {
-			locals[id.Name] = fmt.Sprintf("v%d", len(locals))
-		}
-	}
-	fields := func(fl *ast.FieldList) {
-		if fl == nil {
-			return
-		}
-		for _, f := range fl.List {
-			for _, n := range f.Names {
-				declare(n)
-			}
-		}
-	}
-	fields(fd.Recv)
-	fields(fd.Type.Params)
-	fields(fd.Type.Results)
-	ast.Inspect(fd.Body, func(n ast.Node) bool {
-		switch n := n.(type) {
-		case *ast.AssignStmt:
-			if n.Tok == token.DEFINE {
-				for _, l := range n.Lhs {
-					if id, ok := l.(*ast.Ident); ok {
-						declare(id)
-					}
-				}
-			}
-		case *ast.RangeStmt:
-			if n.Tok == token.DEFINE {
-				if id, ok := n.Key.(*ast.Ident); ok {
-					declare(id)
-				}
-				if id, ok := n.Value.(*ast.Ident); ok {
-					declare(id)
-				}
-			}
-		case *ast.ValueSpec:
-			for _, id := range n.Names {
-				declare(id)
-			}
-		}
-		return true
-	})
+	locals := localNames(fd)
 	exprStr := func(e ast.Expr) string {
 		var b bytes.Buffer
 		var visit func(n ast.Node) bool
@@ -988,46 +943,148 @@ func must(err error) {
 	}
 }
 
+// localNames maps every name the function declares itself (receiver, parameters, results, := and var) to v0, v1, ...
+// in the order of declaration.
+func localNames(fd *ast.FuncDecl) map[string]string {
+	locals := map[string]string{}
+	declare := func(id *ast.Ident) {
+		if id == nil || id.Name == "_" {
+			return
+		}
+		if _, ok := locals[id.Name]; !ok {
+			locals[id.Name] = fmt.Sprintf("v%d", len(locals))
+		}
+	}
+	fields := func(fl *ast.FieldList) {
+		if fl == nil {
+			return
+		}
+		for _, f := range fl.List {
+			for _, n := range f.Names {
+				declare(n)
+			}
+		}
+	}
+	fields(fd.Recv)
+	fields(fd.Type.Params)
+	fields(fd.Type.Results)
+	ast.Inspect(fd.Body, func(n ast.Node) bool {
+		switch n := n.(type) {
+		case *ast.AssignStmt:
+			if n.Tok == token.DEFINE {
+				for _, l := range n.Lhs {
+					if id, ok := l.(*ast.Ident); ok {
+						declare(id)
+					}
+				}
+			}
+		case *ast.RangeStmt:
+			if n.Tok == token.DEFINE {
+				if id, ok := n.Key.(*ast.Ident); ok {
+					declare(id)
+				}
+				if id, ok := n.Value.(*ast.Ident); ok {
+					declare(id)
+				}
+			}
+		case *ast.ValueSpec:
+			for _, id := range n.Names {
+				declare(id)
+			}
+		}
+		return true
+	})
+	return locals
+}
+
+// alphaText rewrites a printed statement so that the function's own names read v0, v1, ...: an identifier that follows a
+// '.' is a field, method or package member and keeps its name.
+func alphaText(t string, locals map[string]string) string {
+	var sc scanner.Scanner
+	fs := token.NewFileSet()
+	f := fs.AddFile("", fs.Base(), len(t))
+	sc.Init(f, []byte(t), nil, 0)
+	var b strings.Builder
+	last := 0
+	prev := token.ILLEGAL
+	for {
+		pos, tok, lit := sc.Scan()
+		if tok == token.EOF {
+			break
+		}
+		if tok == token.SEMICOLON && lit == "\n" {
+			continue
+		}
+		off := f.Offset(pos)
+		if tok == token.IDENT && prev != token.PERIOD {
+			if r, ok := locals[lit]; ok {
+				b.WriteString(t[last:off])
+				b.WriteString(r)
+				last = off + len(lit)
+			}
+		}
+		prev = tok
+	}
+	b.WriteString(t[last:])
+	return b.String()
+}
+
 // mentionShape lists, in source order, the printed form of every assignment / inc-dec statement and every
-// if-condition of recv.name that mentions the given text (e.g. "s.rto"): the arithmetic a model relies on.
+// if-condition of recv.name that mentions the given text (e.g. "v0.rto"): the arithmetic a model relies on. The
+// function's own names (receiver, parameters, results, locals) are printed v0, v1, ... in declaration order, so that
+// renaming one of them changes nothing here; fields, callees, package-level names and literals are printed as written.
 func (p *pkgInfo) mentionShape(recv, name, mention string) ([]string, error) {
 	fd := p.findFunc(recv, name)
 	if fd == nil {
 		return nil, fmt.Errorf("function %s.%s not found", recv, name)
 	}
+	locals := localNames(fd)
 	pr := func(n ast.Node) string {
 		var b bytes.Buffer
 		printer.Fprint(&b, p.fset, n)
-		return strings.Join(strings.Fields(b.String()), " ")
+		return alphaText(strings.Join(strings.Fields(b.String()), " "), locals)
+	}
+	// the mention is written in the function's own names (as in the source when the spec was written) or already
+	// alpha-normalised; it is matched on the normalised text at identifier boundaries
+	// in the latter case; a mention that names none of them (a field, a callee, a literal) is a plain substring
+	nm := alphaText(mention, locals)
+	has := func(t string) bool { return strings.Contains(t, nm) }
+	if nm != mention || regexp.MustCompile(`^v[0-9]+\b`).MatchString(mention) {
+		tail := ""
+		if c := nm[len(nm)-1]; c == '_' || c >= '0' && c <= '9' || c >= 'a' && c <= 'z' || c >= 'A' && c <= 'Z' {
+			tail = `($|[^A-Za-z0-9_])`
+		}
+		mre := regexp.MustCompile(`(^|[^A-Za-z0-9_.])` + regexp.QuoteMeta(nm) + tail)
+		has = func(t string) bool { return mre.MatchString(t) }
 	}
 	var out []string
 	ast.Inspect(fd.Body, func(n ast.Node) bool {
 		switch n := n.(type) {
 		case *ast.AssignStmt:
-			if t := pr(n); strings.Contains(t, mention) {
+			if t := pr(n); has(t) {
 				out = append(out, t)
 			}
 		case *ast.IncDecStmt:
-			if t := pr(n); strings.Contains(t, mention) {
+			if t := pr(n); has(t) {
 				out = append(out, t)
 			}
 		case *ast.ExprStmt:
-			if t := pr(n); strings.Contains(t, mention) {
+			if t := pr(n); has(t) {
 				out = append(out, t)
 			}
 		case *ast.IfStmt:
-			if t := pr(n.Cond); strings.Contains(t, mention) {
+			if t := pr(n.Cond); has(t) {
 				out = append(out, "if "+t)
 			}
 		case *ast.ForStmt:
 			if n.Cond != nil {
-				if t := pr(n.Cond); strings.Contains(t, mention) {
+				if t := pr(n.Cond); has(t) {
 					out = append(out, "for "+t)
 				}
 			}
 		case *ast.CaseClause:
 			for _, e := range n.List {
-				if t := pr(e); strings.Contains(t, mention) {
+				if t := pr(e); has(t) {
 					out = append(out, "case "+t)
 				}
 			}
@@ -1213,16 +1270,16 @@ func main() {
 		// congestion window updates, the send gate)
 		tcpp := load("protocol/transport/tcp")
 		for _, sp := range []struct{ lean, recv, fn, mention string }{
-			{"tcp_rto_expired", "sender", "retransmitTimerExpired", "s.rto"},
-			{"tcp_rto_update", "sender", "updateRTO", "s.rto"},
+			{"tcp_rto_expired", "sender", "retransmitTimerExpired", "v0.rto"},
+			{"tcp_rto_update", "sender", "updateRTO", "v0.rto"},
 			{"tcp_rtt_sample", "sender", "handleRcvdSegment", "rttMeasure"},
-			{"tcp_send_gate", "sender", "sendData", "s.outstanding"},
+			{"tcp_send_gate", "sender", "sendData", "v0.outstanding"},
 			{"tcp_cwnd_dupack", "sender", "checkDuplicateAck", "dupAckCount"},
-			{"tcp_cwnd_ss", "renoState", "updateSlowStart", "newcwnd"},
+			{"tcp_cwnd_ss", "renoState", "updateSlowStart", "v2" /* newcwnd */},
 			{"tcp_cwnd_ca", "renoState", "updateCongestionAvoidance", "snd"},
 			{"tcp_cwnd_rto", "renoState", "HandleRTOExpired", "sndCwnd"},
 			{"tcp_ssthresh", "renoState", "reduceSlowStartThreshold", "sndSsthresh"},
-			{"tcp_trim_ack", "sender", "handleRcvdSegment", "ackLeft"},
+			{"tcp_trim_ack", "sender", "handleRcvdSegment", "v6" /* ackLeft */},
 		} {
 			sh, err := tcpp.mentionShape(sp.recv, sp.fn, sp.mention)
 			must(err)
@@ -1243,7 +1300,7 @@ func main() {
 		}
 		// ipv4: how the identifier of an outgoing packet is chosen
 		{
-			sh, err := ip4.mentionShape("endpoint", "WritePacket", "id")
+			sh, err := ip4.mentionShape("endpoint", "WritePacket", "v8" /* id */)
 			must(err)
 			b.WriteString(leanStrList("ipv4_id_alloc", sh))
 		}
@@ -1252,23 +1309,23 @@ func main() {
 			hp := load("protocol/application/http")
 			wp := load("protocol/application/websocket")
 			for _, sp := range []struct {
-				p                      *pkgInfo
+				p                       *pkgInfo
 				lean, recv, fn, mention string
 			}{
-				{hp, "http_header_loop", "Request", "parse", "tmp"},
+				{hp, "http_header_loop", "Request", "parse", "v6" /* tmp */},
 				{hp, "http_blank_line", "Request", "parse", "HasPrefix"},
-				{hp, "http_body", "Request", "parse", "req.body"},
+				{hp, "http_body", "Request", "parse", "v0.body"},
 				{hp, "http_parse_status", "Request", "parse", "status_code"},
 				{hp, "http_set_status", "Connection", "set_status_code", "status_code"},
 				{hp, "http_error", "Response", "Error", "status_code"},
 				{hp, "http_dispatch", "ServeMux", "dispatch", "defaultMux"},
 				{hp, "http_server_read", "ServerSocket", "Read", "notifyC"},
-				{hp, "http_match_until", "", "match_until", "i"},
-				{wp, "ws_send_len", "Conn", "SendData", "length"},
-				{wp, "ws_read_len", "Conn", "ReadData", "dataLen"},
-				{wp, "ws_read_hdr", "Conn", "ReadData", "b["},
+				{hp, "http_match_until", "", "match_until", "v2" /* i */},
+				{wp, "ws_send_len", "Conn", "SendData", "v2" /* length */},
+				{wp, "ws_read_len", "Conn", "ReadData", "v8" /* dataLen */},
+				{wp, "ws_read_hdr", "Conn", "ReadData", "v3[" /* b[ */},
 				{wp, "ws_read_case", "Conn", "ReadData", "12"},
-				{wp, "ws_mask", "", "maskBytes", "pos"},
+				{wp, "ws_mask", "", "maskBytes", "v2" /* pos */},
 			} {
 				sh, err := sp.p.mentionShape(sp.recv, sp.fn, sp.mention)
 				must(err)
